@@ -106,14 +106,14 @@ func NewPipe(po PipeOptions) (*Pipe, error) {
 		if err := os.Chdir(po.Dir); err != nil {
 			return nil, err
 		}
-		for _, d := range []string{"cfg", "cfg/errorfiles", "cfg/lua", "cfg/maps"} {
+		for _, d := range []string{"etc/haproxy", "etc/haproxy/errorfiles", "etc/haproxy/lua", "etc/haproxy/maps"} {
 			if err := os.MkdirAll(d, 0o755); err != nil {
 				return nil, err
 			}
 		}
 		iopt.RootFSPrefix = RepoRoot + "/rootfs"
-		iopt.HAProxyCfgDir = "cfg"
-		iopt.HAProxyMapsDir = "cfg/maps"
+		iopt.HAProxyCfgDir = "etc/haproxy" // the layout lib/cfgnorm.Load reads
+		iopt.HAProxyMapsDir = "etc/haproxy/maps"
 	}
 	p.Instance = haproxy.CreateInstance(p.Log, iopt)
 	if po.Render {
@@ -226,7 +226,7 @@ func (p *Pipe) Write() (string, error) {
 	if err := p.Instance.HAProxyUpdate(timer); err != nil {
 		return "", err
 	}
-	b, err := os.ReadFile(filepath.Join(p.Dir, "cfg", "haproxy.cfg"))
+	b, err := os.ReadFile(filepath.Join(p.Dir, "etc", "haproxy", "haproxy.cfg"))
 	return string(b), err
 }
 
